@@ -24,12 +24,13 @@ def _build():
 
     class RecProvider(ProviderStub):
         def __getattribute__(self, name):
-            v = object.__getattribute__(self, name)
             if name == VAR:
-                rec.event('read', VAR)
+                rec.event('read', VAR)        # gate FIRST (replay), then perform the read: the value must be the one at that point
+                v = object.__getattribute__(self, name)
                 if rec.mode == 'record':
                     vals[len(rec.events) - 1] = v
-            return v
+                return v
+            return object.__getattribute__(self, name)
 
         def __setattr__(self, name, value):
             if name == VAR:
